@@ -36,9 +36,77 @@ type Case struct {
 	Src     string   `json:"src"`
 	Relaxed bool     `json:"relaxed"`
 	Class   string   `json:"class,omitempty"`
-	Styles  []string `json:"styles,omitempty"` // style classes the generator used (for known-class routing)
-	Diags   bool     `json:"diags,omitempty"`  // also run the default checks and verify diagnostics / carets
+	Styles  []string `json:"styles,omitempty"`   // style classes the generator used (for known-class routing)
+	Diags   bool     `json:"diags,omitempty"`    // also run the default checks and verify diagnostics / carets
+	RichCfg bool     `json:"rich_cfg,omitempty"` // ... with the configurable checks switched on too (richConfig)
 }
+
+// richConfig switches on the configurable checks, so that diagnostics also point into label and annotation
+// keys and values, for / keep_firing_for, rule names and group labels.
+const richConfig = `
+rule {
+  label "team" {
+    required = true
+    severity = "bug"
+  }
+  label "severity" {
+    value = "(warning|critical)"
+    required = true
+  }
+  label "job" {
+    value = "prod-.+"
+  }
+  label "env" {
+    token = "[a-z]+"
+    value = "(staging|live)"
+  }
+  aggregate ".+" {
+    keep = ["job"]
+    severity = "bug"
+  }
+  aggregate ".+" {
+    strip = ["instance"]
+  }
+  reject ".*(prod|page|text|is).*" {
+    label_keys = true
+    label_values = true
+    annotation_keys = true
+    annotation_values = true
+  }
+}
+rule {
+  match {
+    kind = "alerting"
+  }
+  annotation "summary" {
+    required = true
+    value = "[A-Z].+"
+  }
+  annotation "dashboard" {
+    value = "https://grafana\\..+"
+  }
+  annotation "runbook_url" {
+    required = true
+  }
+  for {
+    min = "2m"
+    max = "30m"
+  }
+  keep_firing_for {
+    min = "1h"
+  }
+  name "[A-Z][a-z]+Alert" {
+  }
+}
+rule {
+  match {
+    kind = "recording"
+  }
+  name "rec:.+" {
+    severity = "bug"
+  }
+}
+`
 
 var errSkip = errors.New("precondition not met")
 
@@ -229,7 +297,14 @@ func checkCase(c Case) (st stat, err error) {
 // checkDiags lints the bytes with the default checks and verifies every
 // diagnostic against the file and the console caret line.
 func checkDiags(c Case, lines []string) (int, error) {
-	res := lint.Bytes([]byte(c.Src), lint.Options{Relaxed: c.Relaxed, Offline: true})
+	opts := lint.Options{Relaxed: c.Relaxed, Offline: true}
+	if c.RichCfg {
+		opts.ConfigHCL = richConfig
+	}
+	res := lint.Bytes([]byte(c.Src), opts)
+	if res.CfgErr != nil {
+		return 0, fmt.Errorf("harness bug: richConfig rejected: %v", res.CfgErr)
+	}
 	if res.Panicked() {
 		return 0, errSkip // crashes are C02's subject
 	}
@@ -302,7 +377,7 @@ func checkDiags(c Case, lines []string) (int, error) {
 					inside = inside && q.line == p.line && q.col >= p.col && q.col < p.col+size
 				}
 				if inside {
-					for j := range dec {
+					for j := 0; j < len(dec); j++ {
 						escaped[k+j] = true
 					}
 					k += len(dec) - 1
@@ -311,7 +386,7 @@ func checkDiags(c Case, lines []string) (int, error) {
 			for i := range got {
 				w := want[i]
 				if !(got[i] == w || ((got[i] == '\n' || got[i] == '\r') && (w == ' ' || w == '\n')) || escaped[d.FirstColumn-1+i]) {
-					return n, fmt.Errorf("%s: the file characters selected are %q, the value characters are %q", what, string(got), want)
+					return n, fmt.Errorf("%s: the file characters selected are %q, the value characters are %q (first difference at character %d)", what, string(got), want, i+1)
 				}
 			}
 			// caret line from the console renderer (single diagnostic, no colour)
@@ -501,6 +576,7 @@ func genCase(t *rapid.T, o gen.StyleOpts) Case {
 	}
 	styles := gen.SortedKeys(s.Used)
 	c := Case{Src: src, Relaxed: relaxed, Styles: styles, Diags: rapid.IntRange(0, 2).Draw(t, "diags") == 0}
+	c.RichCfg = c.Diags && rapid.Bool().Draw(t, "richcfg")
 	c.Class = layout
 	return c
 }
